@@ -86,5 +86,8 @@ func init() {
 		Holds:    true,
 		DupDAG:   true,
 	}
-	fw.Families["C15"] = func(k *fw.Case) { trace.RunCase(k, c15) }
+	fw.Families["C15"] = func(k *fw.Case) {
+		trace.RunCase(k, c15)
+		trace.LeakProbe(k)
+	}
 }
